@@ -1893,10 +1893,9 @@ H_STR = z3.Function("H_str", z3.StringSort(), z3.IntSort())
 def sym_hash(x):
     if isinstance(x, SymStr):
         return SymInt(H_STR(x.e))
-    if isinstance(x, str) and isinstance(E(), Engine):
-        return SymInt(H_STR(z3.StringVal(x)))
-    if isinstance(x, tuple) and (_has_sym(x) or isinstance(E(), Engine)):
-        hs = [_i(sym_hash(y)) if not isinstance(y, (int, type(None))) or isinstance(y, bool) else z3.IntVal(hash(y) % 1000003) for y in x]
+    if isinstance(x, tuple) and _has_sym(x):
+        hs = [_i(sym_hash(y)) if isinstance(y, (SymStr, tuple)) else (H_STR(z3.StringVal(y)) if isinstance(y, str) else z3.IntVal(hash(y) % 1000003))
+              for y in x]
         f = z3.Function(f"H_tup{len(hs)}", *([z3.IntSort()] * (len(hs) + 1)))
         return SymInt(f(*hs))
     if x is None:
